@@ -227,8 +227,11 @@ def batch_vs_alone(case, ctx):
         # of a class edge may legitimately land in the neighbouring class when processed alone
         for lp, mx in zip(loads_by_point, maxima):
             w = mx / case["bins"]
-            vals = set(lp) | set(a - b for a in lp for b in lp) | {0.0}
-            if any(_near_edge(v, w) for v in vals if v != 0.0 and abs(v) not in (mx, 2 * mx)):
+            # exact for every point (allowed): the loads +-max, the range between +max and -max, ranges between +-max and 0
+            bad = any(_near_edge(v, w) for v in lp if v != 0.0 and abs(v) != mx) or any(
+                _near_edge(a - b, w) for a in lp for b in lp
+                if a != b and not ((abs(a) == mx and b == 0.0) or (abs(b) == mx and a == 0.0) or (abs(a) == mx and b == -a)))
+            if bad:
                 ctx.skip("non-dyadic ratio with a load or range on a class edge (rounding-dependent class)")
     m = len(base)
     step_ids = {"range": list(range(m)), "gaps": [10 * i + 10 for i in range(m)], "offset": [1000 + i for i in range(m)],
